@@ -379,8 +379,7 @@ def depends(rep, repo):
     part of this check. Rule ids keep their C10. prefix."""
     from checks import c10
     cmod = repo.mod('circuit')
-    c10.resolve_rules(rep, cmod)
-    c10.substitute_rules(rep, repo, cmod)
+    c10.function_rules(rep, repo, cmod, what=('resolve', 'substitute'))
     # "... its library cells resolved, simulates to exactly the Boolean function": the implementation a cell resolves to is the library
     # definition (pin order of the implementation ports, datasheet function): the C19 rules are part of this check
     from checks import c19
